@@ -1,8 +1,17 @@
 (* C13  Reads write nothing, writes touch only their target, failures destroy nothing (logic part: the order
    serialise-then-open and the target name; OS behaviour is observed by the check's file-tree snapshots). *)
+From Coq Require Import String.   (* string literals of the examples; imported first so the list names win *)
 From Coq Require Import NArith ZArith List Bool.
 From DictIO Require Import Chars Str Value Scalar Cli MiscSpec CliProofs.
 Import ListNotations.
+
+(* a small file tree for the non-vacuity examples *)
+Module C13_ex.
+  Definition pa := of_string "/r/a".  Definition pb := of_string "/r/parsed.a".  Definition pc := of_string "/r/sub/c".
+  Definition fs0 : fsmap := [(pa, of_string "x 1;"); (pb, of_string "old")].
+  Definition ops : list fsop :=
+    [FRead pa; FWrite pb (Ok (of_string "x 1; y 2;")); FWrite pa (Raise E_Value); FRead pb; FWrite pc (Ok (of_string "new file"))].
+End C13_ex.
 
 Theorem C13_read_pure : forall fs p, fs_step fs (FRead p) = fs.
 Proof. exact fs_read_pure. Qed.
@@ -12,6 +21,15 @@ Print Assumptions C13_read_pure.
 Theorem C13_frame : forall fs t c q, q <> t -> fs_get q (fs_step fs (FWrite t c)) = fs_get q fs.
 Proof. exact fs_frame. Qed.
 Print Assumptions C13_frame.
+
+Example C13_frame_nonvacuous :
+  C13_ex.pa <> C13_ex.pb /\
+  fs_get C13_ex.pa (fs_step C13_ex.fs0 (FWrite C13_ex.pb (Ok (of_string "new")))) = Some (of_string "x 1;") /\
+  fs_get C13_ex.pb (fs_step C13_ex.fs0 (FWrite C13_ex.pb (Ok (of_string "new")))) = Some (of_string "new").
+Proof.
+  assert (H : C13_ex.pa <> C13_ex.pb) by discriminate.
+  refine (conj H (conj (C13_frame C13_ex.fs0 _ _ _ H) _)). vm_compute. reflexivity.
+Qed.
 
 Theorem C13_write_target : forall fs t txt, fs_get t (fs_step fs (FWrite t (Ok txt))) = Some txt.
 Proof. exact fs_write_target. Qed.
@@ -28,11 +46,34 @@ Theorem C13_history : forall ops fs q,
 Proof. exact fs_history_frame. Qed.
 Print Assumptions C13_history.
 
+(* non-vacuity: a history with reads, two successful writes (one creates a file) and a failing write TO the observed
+   file; the observed file pa is the target of no successful write *)
+Example C13_history_nonvacuous :
+  (forall t txt, In (FWrite t (Ok txt)) C13_ex.ops -> t <> C13_ex.pa) /\
+  fs_get C13_ex.pa (fold_left fs_step C13_ex.ops C13_ex.fs0) = Some (of_string "x 1;") /\
+  fold_left fs_step C13_ex.ops C13_ex.fs0 <> C13_ex.fs0.
+Proof.
+  assert (H : forall t txt, In (FWrite t (Ok txt)) C13_ex.ops -> t <> C13_ex.pa).
+  { intros t txt Hin. unfold C13_ex.ops in Hin. cbn [In] in Hin.
+    destruct Hin as [E|[E|[E|[E|[E|[]]]]]]; try discriminate E; injection E as <- _; discriminate. }
+  refine (conj H (conj (C13_history C13_ex.ops C13_ex.fs0 C13_ex.pa H) _)). vm_compute. discriminate.
+Qed.
+
 (* target name: the extension is chosen by the output format *)
 Theorem C13_name_ext : forall name scope o, In o [of_string "foam"; of_string "json"; of_string "xml"] ->
   exists base, target_file_name name (Some w_parsed) scope (Some o) = base ++ c_dot :: o.
 Proof. exact target_ext. Qed.
 Print Assumptions C13_name_ext.
+
+Example C13_name_ext_nonvacuous :
+  let o := of_string "json" in
+  In o [of_string "foam"; of_string "json"; of_string "xml"] /\
+  (exists base, target_file_name (of_string "test.dict") (Some w_parsed) [SStr (of_string "scopeA"); SInt 2] (Some o) = base ++ c_dot :: o) /\
+  target_file_name (of_string "test.dict") (Some w_parsed) [SStr (of_string "scopeA"); SInt 2] (Some o) = of_string "parsed.test_scopeA_2.json".
+Proof.
+  intros o. assert (H : In o [of_string "foam"; of_string "json"; of_string "xml"]) by (right; left; reflexivity).
+  refine (conj H (conj (C13_name_ext _ _ o H) _)). vm_compute. reflexivity.
+Qed.
 
 (* the prefix is applied exactly once: deriving the target name of a derived name changes nothing *)
 Theorem C13_prefix_once : forall name, word_name name ->
@@ -40,3 +81,23 @@ Theorem C13_prefix_once : forall name, word_name name ->
   target_file_name t (Some w_parsed) [] None = t /\ t = w_parsed ++ c_dot :: name.
 Proof. exact target_prefix_once. Qed.
 Print Assumptions C13_prefix_once.
+
+Example C13_prefix_once_nonvacuous :
+  let name := of_string "testDict_1" in
+  word_name name /\
+  target_file_name name (Some w_parsed) [] None = of_string "parsed.testDict_1" /\
+  target_file_name (of_string "parsed.testDict_1") (Some w_parsed) [] None = of_string "parsed.testDict_1".
+Proof.
+  intros name.
+  assert (H : word_name name) by (split; [discriminate | repeat (constructor; [reflexivity|]); constructor]).
+  destruct (C13_prefix_once name H) as [A B]. cbv zeta in A, B.
+  refine (conj H (conj _ _)).
+  - rewrite B. vm_compute. reflexivity.
+  - assert (E : of_string "parsed.testDict_1" = target_file_name name (Some w_parsed) [] None) by (vm_compute; reflexivity).
+    rewrite E. exact A.
+Qed.
+(* the theorem speaks of dot-free names only; a name with a suffix behaves alike in this instance, but is not covered *)
+Example C13_prefix_once_dotted_name :
+  target_file_name (of_string "test.dict") (Some w_parsed) [] None = of_string "parsed.test.dict" /\
+  target_file_name (of_string "parsed.test.dict") (Some w_parsed) [] None = of_string "parsed.test.dict".
+Proof. vm_compute. split; reflexivity. Qed.
